@@ -56,4 +56,13 @@ func collectC15() {
 	cU("DiscInvalidIdentity", uint64(p2p.DiscInvalidIdentity))
 	cU("DiscUnexpectedIdentity", uint64(p2p.DiscUnexpectedIdentity))
 	cU("DiscSubprotocolError", uint64(p2p.DiscSubprotocolError))
+	// encryption handshake: field and message sizes of p2p/rlpx.go
+	cI("HsSigLen", p2p.VerifSigLen)
+	cI("HsPubLen", p2p.VerifPubLen)
+	cI("HsShaLen", p2p.VerifShaLen)
+	cI("AuthMsgLen", p2p.VerifAuthMsgLen)
+	cI("AuthRespLen", p2p.VerifAuthRespLen)
+	cI("EciesOverhead", p2p.VerifEciesOverhead)
+	cI("EncAuthMsgLen", p2p.VerifEncAuthMsgLen)
+	cI("EncAuthRespLen", p2p.VerifEncAuthRespLen)
 }
